@@ -174,6 +174,7 @@ def gen_case(rng):
     versions = []
     stamp = 0
     late_from = rng.choice([0, 0, nd // 2])
+    pool = rng.choice([[0, 1, 2, 3, None, 1, 2], [0, 1, 2, 3, None, 1, 2], [1000000, 1000004, 1000008, None, 1000000], [0.5, 0.500001, 0.500002, None, 0.5]])   # genuine but tiny revisions
     for i in range(nv):
         if i and rng.random() < 0.6:
             stamp += rng.choice([1, 3, 24])
@@ -183,7 +184,7 @@ def gen_case(rng):
             idx = list(range(lo, hi))
         else:
             idx = sorted(rng.sample(range(lo, hi), rng.randint(1, hi - lo)))
-        vals = [rng.choice([0, 1, 2, 3, None, 1, 2]) for _ in idx]
+        vals = [rng.choice(pool) for _ in idx]
         versions.append({'stamp': stamp, 'idx': idx, 'vals': vals})
     return {'ndates': nd, 'versions': versions}
 
